@@ -263,6 +263,7 @@ def _install_one_lapack(sla, fname, specs):
         S.busy += 1
         try:
             for (pname, arr, before) in watched:
+                c.checks['C06|lapack:no_shared_buffer_clobbered'] += 1
                 if not np.array_equal(arr, before, equal_nan=True):
                     c.lapack[fname + '.really_overwritten'] += 1
                     tgt = S.targets[-1] if S.targets else None
@@ -276,13 +277,13 @@ def _install_one_lapack(sla, fname, specs):
                                     victims.append((name or type(o).__name__, i))
                         except Exception:
                             pass
-                    c.checks['lapack:overwritten_buffer_not_shared'] += 1
                     if victims:
                         c.lapack[fname + '.overwritten_and_shared'] += 1
-                        c.violation('lapack.' + fname, 'overwritten_buffer_shared_with_live_object',
-                                    ['site=' + site],
+                        c.violation('lapack', 'no_shared_buffer_clobbered',
+                                    ['site=' + site, 'routine=' + fname],
                                     {'site': site, 'line': line, 'victims': victims[:4], 'shape': list(arr.shape),
-                                     'f_contiguous': bool(arr.flags.f_contiguous), 'c_contiguous': bool(arr.flags.c_contiguous)})
+                                     'f_contiguous': bool(arr.flags.f_contiguous), 'c_contiguous': bool(arr.flags.c_contiguous)},
+                                    prop='C06')
         except Exception:
             monitor_error('lapack.' + fname, 'post')
         finally:
